@@ -9,7 +9,8 @@ CONFIG = {
                 "(BackupShard/ExportShard -> RestoreShard/ImportShard directly and through the coordinator CopyShard RPC over loopback with the backup "
                 "connection cut after k bytes). Partial: byte encodings of TSM/tombstone/tar are not modelled (sizes are inputs). A backup requested while a background cache snapshot is in flight "
                 "waits for it under Engine.snapshotMu (backup_waits_for_snapshot_in_flight; the harness pauses a real WriteSnapshot at its verifPoint and observes the backup held back); "
-                "the busy-snapshotter branch of CreateSnapshot, which would lose the cache, is unreachable since (kept refuted as the reason).",
+                "the busy-snapshotter branch of CreateSnapshot, which would lose the cache, is unreachable since (kept refuted as the reason). "
+                "A backup after a FAILED cache snapshot (retained snapshot + live cache) flushes both (backup_after_failed_snapshot; the source's cache parts are observed separately through Cache.VerifParts).",
         "note": "Trusts Coq kernel, genconsts, the harness (layer-A extraction through tsm1 readers, tar offsets), archive/tar semantics for truncated streams as modelled by `locate`.",
         "technique": "Coq proof (invariants over file lists, LWW lookup extensionality) on a Gallina model + differential correspondence against real tsdb.Store / coordinator.Service",
     },
@@ -17,7 +18,7 @@ CONFIG = {
     "level": "proof",
     "n": {"quick": 330, "thorough": 4000},
     "shard": 120,
-    "extra_proof_files": ["Names", "ProofsCopy", "ProofsExport", "ProofsImport", "ProofsIncr", "ProofsSeq", "ProofsLink"],
+    "extra_proof_files": ["Names", "ProofsCopy", "ProofsExport", "ProofsImport", "ProofsIncr", "ProofsSeq", "ProofsLink", "ProofsRetained"],
     "harness_timeout": {"quick": 600, "thorough": 3000},
     "rule": "designed cases (empty / cache-only / one file / pending tombstone / rewrite after delete / compaction, for restore, import and RPC copy; every cut "
             "class of a three-member archive: header, data, padding, member boundary, each marker block; since thresholds at every member mtime +-1ns; export "
